@@ -212,3 +212,175 @@ def fd_grad_defect(t, x, h=1e-6):
         e = np.zeros_like(x); e[i] = h * max(1.0, abs(x[i]))
         fd[i] = (t.logd(x + e) - t.logd(x - e)) / (2 * e[i])
     return float(np.max(np.abs(fd - g)) / max(1.0, float(np.max(np.abs(g)))))
+
+
+# ======================================================================================================
+# Independent numpy implementations of *library* targets (cuqi.distribution.*) used by the "lib" cases.
+# Written from the documented densities / the gallery's source of constants; never import cuqi.
+
+class NormalisedGauss(_Base):
+    """N(mu, Sigma) with the full normalising constant (what cuqi.distribution.Gaussian.logd documents)."""
+    kind = "lib_gauss"
+
+    def __init__(self, mu, Sigma):
+        self.mu = np.asarray(mu, float).reshape(-1)
+        self.Sigma = np.asarray(Sigma, float)
+        self.dim = self.mu.size
+        self.P = np.linalg.inv(self.Sigma)
+        self.L = np.linalg.cholesky(self.Sigma)
+        self.const = -0.5 * (self.dim * math.log(2 * math.pi) + 2.0 * float(np.sum(np.log(np.diag(self.L)))))
+        self.sigma_min = float(np.sqrt(np.linalg.eigvalsh(self.Sigma).min()))
+
+    def logd(self, x):
+        d = np.asarray(x, float).reshape(-1) - self.mu
+        with np.errstate(all="ignore"):
+            return float(self.const - 0.5 * d @ (self.P @ d))
+
+    def grad(self, x):
+        with np.errstate(all="ignore"):
+            return -(self.P @ (np.asarray(x, float).reshape(-1) - self.mu))
+
+    def draw(self, rs, K):
+        return self.mu + rs.standard_normal((K, self.dim)) @ self.L.T
+
+    def to_normal(self, X):
+        return np.linalg.solve(self.L, (np.asarray(X, float) - self.mu).T).T
+
+
+class _Warped(_Base):
+    """x -> y(x) with unit Jacobian, y ~ N(m0, S0): density of x is the Gaussian density at y(x)."""
+    def _setup(self, m0, S0):
+        self.G = NormalisedGauss(m0, S0)
+        self.dim = 2
+
+    def logd(self, x):
+        with np.errstate(all="ignore"):
+            return self.G.logd(self.warp(np.asarray(x, float)))
+
+    def grad(self, x):
+        with np.errstate(all="ignore"):
+            x = np.asarray(x, float)
+            return self.jac(x).T @ self.G.grad(self.warp(x))
+
+    def draw(self, rs, K):
+        return np.array([self.unwarp(y) for y in self.G.draw(rs, K)])
+
+    def to_normal(self, X):
+        return self.G.to_normal(np.array([self.warp(x) for x in np.asarray(X, float)]))
+
+
+class GallerySquiggle(_Warped):
+    kind = "lib_squiggle"
+
+    def __init__(self):
+        self._setup(np.zeros(2), np.array([[2.0, 0.25], [0.25, 0.5]]))
+        self.sigma_min = 0.12          # the warp oscillates with wave number 5
+
+    def warp(self, x):
+        return np.array([x[0], x[1] + math.sin(5 * x[0])])
+
+    def jac(self, x):
+        return np.array([[1.0, 0.0], [5 * math.cos(5 * x[0]), 1.0]])
+
+    def unwarp(self, y):
+        return np.array([y[0], y[1] - math.sin(5 * y[0])])
+
+
+class GalleryBanana(_Warped):
+    kind = "lib_banana"
+
+    def __init__(self):
+        self._setup(np.array([0.0, 4.0]), np.array([[1.0, 0.5], [0.5, 1.0]]))
+        self.a, self.b = 2.0, 0.2
+        self.sigma_min = 0.25
+
+    def warp(self, x):
+        return np.array([x[0] / self.a, x[1] * self.a + self.a * self.b * (x[0] ** 2 + self.a ** 2)])
+
+    def jac(self, x):
+        return np.array([[1.0 / self.a, 0.0], [2 * self.a * self.b * x[0], self.a]])
+
+    def unwarp(self, y):
+        x0 = self.a * y[0]
+        return np.array([x0, (y[1] - self.a * self.b * (x0 ** 2 + self.a ** 2)) / self.a])
+
+
+class GalleryFunnel(_Base):
+    """Neal's funnel: x1 ~ N(0, 3^2), x0 | x1 ~ N(0, exp(x1))."""
+    kind = "lib_funnel"
+    dim = 2
+    sigma_min = 0.15
+
+    def logd(self, x):
+        with np.errstate(all="ignore"):
+            x = np.asarray(x, float)
+            s0 = math.exp(x[1] / 2)
+            f = lambda v, s: -0.5 * math.log(2 * math.pi) - math.log(s) - 0.5 * (v / s) ** 2
+            return float(f(x[0], s0) + f(x[1], 3.0))
+
+    def grad(self, x):
+        with np.errstate(all="ignore"):
+            x = np.asarray(x, float)
+            v = math.exp(x[1])
+            return np.array([-x[0] / v, -0.5 + 0.5 * x[0] ** 2 / v - x[1] / 9.0])
+
+    def draw(self, rs, K):
+        x1 = 3.0 * rs.standard_normal(K)
+        return np.column_stack([np.exp(x1 / 2) * rs.standard_normal(K), x1])
+
+    def to_normal(self, X):
+        X = np.asarray(X, float)
+        return np.column_stack([X[:, 0] / np.exp(X[:, 1] / 2), X[:, 1] / 3.0])
+
+
+class GalleryDonut(_Base):
+    kind = "lib_donut"
+    dim = 2
+    sigma_min = 0.12
+
+    def logd(self, x):
+        r = float(np.linalg.norm(np.asarray(x, float)))
+        return -(r - 2.6) ** 2 / 0.033
+
+    def grad(self, x):
+        x = np.asarray(x, float)
+        r = float(np.linalg.norm(x))
+        return x * ((2.6 / r) - 1.0) * 2.0 / 0.033
+
+
+class GalleryCalSom91(_Base):
+    kind = "lib_CalSom91"
+    dim = 2
+    sigma_min = 0.1
+
+    def logd(self, x):
+        x = np.asarray(x, float)
+        r = math.hypot(x[0], x[1])
+        return -1.0 / (2 * 0.1 ** 2) * (r - 1.0) ** 2 - 0.5 * (x[1] - 1.0) ** 2
+
+    def grad(self, x):
+        x = np.asarray(x, float)
+        r = math.hypot(x[0], x[1])
+        return np.array([-(x[0] * (r - 1.0)) / (0.01 * r), -(x[1] * (r - 1.0)) / (0.01 * r) - (x[1] - 1.0)])
+
+
+class GalleryMixture(_Base):
+    kind = "lib_mixture"
+    dim = 2
+    sigma_min = 0.5
+
+    def __init__(self):
+        self.c = [NormalisedGauss(m, s * np.eye(2)) for m, s in (([-1.5, -1.5], 0.64), ([1.5, 1.5], 0.64), ([-2.0, 2.0], 0.25))]
+
+    def logd(self, x):
+        with np.errstate(all="ignore"):
+            return float(np.log(sum(math.exp(c.logd(x)) for c in self.c)))
+
+    def grad(self, x):
+        with np.errstate(all="ignore"):
+            p = np.array([math.exp(c.logd(x)) for c in self.c])
+            return sum(pi * c.grad(x) for pi, c in zip(p, self.c)) / p.sum()
+
+
+GALLERY = {"squiggle": GallerySquiggle, "banana": GalleryBanana, "funnel": GalleryFunnel, "donut": GalleryDonut,
+           "CalSom91": GalleryCalSom91, "mixture": GalleryMixture}
